@@ -16,32 +16,32 @@ import (
 // Oblig is one proof obligation: under Guard (reachability of the program
 // point) and all script items before Pos, Goal must hold.
 type Oblig struct {
-	Fn    string
-	Name  string
-	Kind  string
-	Label string
-	Tags  []string
-	Guard *smt.Term
-	Goal  *smt.Term
-	Pos   int
-	Where string
-	Text  string // source text of the clause, if any
-	Vacuity bool // canary: expected NOT to be provable
-	Hints []*smt.Term // ground instances of hint functions (defined as true) occurring in the goal
+	Fn      string
+	Name    string
+	Kind    string
+	Label   string
+	Tags    []string
+	Guard   *smt.Term
+	Goal    *smt.Term
+	Pos     int
+	Where   string
+	Text    string      // source text of the clause, if any
+	Vacuity bool        // canary: expected NOT to be provable
+	Hints   []*smt.Term // ground instances of hint functions (defined as true) occurring in the goal
 }
 
 type loopInfo struct {
-	preState *State // the state just before the loop (for before(...) in invariants)
-	header   *ssa.BasicBlock
-	ord      int
-	blocks   map[*ssa.BasicBlock]bool
-	ls       *spec.LoopSpec
-	variant  *smt.Term
-	ghost    map[string]Val // header values of ghost variables
-	hdrState *State
-	written  map[string]bool // heap keys written inside (from the dry run)
-	preLoop  *State
-	wm       *smt.Term
+	preState    *State // the state just before the loop (for before(...) in invariants)
+	header      *ssa.BasicBlock
+	ord         int
+	blocks      map[*ssa.BasicBlock]bool
+	ls          *spec.LoopSpec
+	variant     *smt.Term
+	ghost       map[string]Val // header values of ghost variables
+	hdrState    *State
+	written     map[string]bool // heap keys written inside (from the dry run)
+	preLoop     *State
+	wm          *smt.Term
 	writtenRefs map[string]map[string]*smt.Term // keys written only at literal references
 }
 
@@ -61,79 +61,81 @@ type FnCtx struct {
 	C    *spec.FuncSpec
 	S    *smt.Script
 
-	vals    map[ssa.Value]Val
-	reach   map[*ssa.BasicBlock]*smt.Term
-	out     map[*ssa.BasicBlock]*State
-	edge    map[[2]int]*smt.Term
-	entry   *State
-	params  map[string]Val
-	results []Val
+	vals         map[ssa.Value]Val
+	resliced     map[ssa.Value]int // see reslicedOrigin
+	reslicedDone map[*ssa.Function]bool
+	reach        map[*ssa.BasicBlock]*smt.Term
+	out          map[*ssa.BasicBlock]*State
+	edge         map[[2]int]*smt.Term
+	entry        *State
+	params       map[string]Val
+	results      []Val
 
 	Obligs []Oblig
 	Abstr  map[string]int
 	Used   map[string]bool // trusted contracts / assumptions used
 	Notes  []string
 
-	nextRef   int
-	freshRefs []*smt.Term
-	refBase   *smt.Term
-	blockBase map[*ssa.BasicBlock]*smt.Term
-	strLits   map[string]*smt.Term
-	loops     map[*ssa.BasicBlock]*loopInfo
-	loopList  []*loopInfo
-	defers    []deferRec
-	callOrd   map[string]int
-	curBlock  *ssa.BasicBlock
-	curReach  *smt.Term
-	dry       bool
-	written   map[*ssa.BasicBlock]map[string]bool
-	writtenRefs map[*ssa.BasicBlock]map[string]map[string]*smt.Term
-	heapSorts map[string]smt.Sort
-	curInstr  ssa.Instruction
-	panicked  *smt.Term
-	specDecl  map[string]bool
+	nextRef          int
+	freshRefs        []*smt.Term
+	refBase          *smt.Term
+	blockBase        map[*ssa.BasicBlock]*smt.Term
+	strLits          map[string]*smt.Term
+	loops            map[*ssa.BasicBlock]*loopInfo
+	loopList         []*loopInfo
+	defers           []deferRec
+	callOrd          map[string]int
+	curBlock         *ssa.BasicBlock
+	curReach         *smt.Term
+	dry              bool
+	written          map[*ssa.BasicBlock]map[string]bool
+	writtenRefs      map[*ssa.BasicBlock]map[string]map[string]*smt.Term
+	heapSorts        map[string]smt.Sort
+	curInstr         ssa.Instruction
+	panicked         *smt.Term
+	specDecl         map[string]bool
 	inProgressSpecFn map[string]bool
-	ghostCounter int
-	recoverVal *Val
-	typeIDs []string
-	boxes map[string]boxInfo
-	errInit map[string]bool
-	ctVals map[string]Val
-	canonDone map[string]bool
-	condFresh map[string]*smt.Term
-	preSorts map[string]smt.Sort
-	inline *inlineCtx
-	parentCtx *FnCtx
-	recoverCalled *smt.Term
-	callPanicked map[string]*smt.Term
-	callPanicVal map[string]*smt.Term
-	staticOrd map[ssa.Instruction]int
-	staticName map[ssa.Instruction]string
-	typeInvUsed map[string]bool
-	refKeys map[string]bool
-	byteDone map[string]bool
-	lastElemsSlice *smt.Term
-	ifaces map[string]types.Type
-	typeObjs map[string]types.Type
-	unboundLoops []string
-	constFieldsUsed map[string]bool
-	callRes map[string]Val
-	callGuard map[string]*smt.Term
-	splitCases []*smt.Term
-	inAlloc bool
-	escaped map[string]bool
-	tainted map[string]bool
-	usedCallAssert map[string]bool
-	subFns []string // embedded-struct reference functions declared so far
-	wmTerms []*smt.Term // loop watermarks declared so far
-	paramObj map[string]types.Object // contract parameter name -> the parameter's object
-	wmDeclared map[string]bool // loop watermarks declared so far in this run
-	devirtUsed map[string]string // function-valued fields resolved through a fieldis declaration
-	retLocal func(string) (Val, bool) // named locals at the return being checked
-	missingCall string // set when a clause asks for the result of a call site that does not exist
-	iters map[*ssa.Range]*iterInfo
-	specLoop *loopInfo // the loop whose contract is being evaluated (for iterated())
-	axiomDone map[string]bool
+	ghostCounter     int
+	recoverVal       *Val
+	typeIDs          []string
+	boxes            map[string]boxInfo
+	errInit          map[string]bool
+	ctVals           map[string]Val
+	canonDone        map[string]bool
+	condFresh        map[string]*smt.Term
+	preSorts         map[string]smt.Sort
+	inline           *inlineCtx
+	parentCtx        *FnCtx
+	recoverCalled    *smt.Term
+	callPanicked     map[string]*smt.Term
+	callPanicVal     map[string]*smt.Term
+	staticOrd        map[ssa.Instruction]int
+	staticName       map[ssa.Instruction]string
+	typeInvUsed      map[string]bool
+	refKeys          map[string]bool
+	byteDone         map[string]bool
+	lastElemsSlice   *smt.Term
+	ifaces           map[string]types.Type
+	typeObjs         map[string]types.Type
+	unboundLoops     []string
+	constFieldsUsed  map[string]bool
+	callRes          map[string]Val
+	callGuard        map[string]*smt.Term
+	splitCases       []*smt.Term
+	inAlloc          bool
+	escaped          map[string]bool
+	tainted          map[string]bool
+	usedCallAssert   map[string]bool
+	subFns           []string                 // embedded-struct reference functions declared so far
+	wmTerms          []*smt.Term              // loop watermarks declared so far
+	paramObj         map[string]types.Object  // contract parameter name -> the parameter's object
+	wmDeclared       map[string]bool          // loop watermarks declared so far in this run
+	devirtUsed       map[string]string        // function-valued fields resolved through a fieldis declaration
+	retLocal         func(string) (Val, bool) // named locals at the return being checked
+	missingCall      string                   // set when a clause asks for the result of a call site that does not exist
+	iters            map[*ssa.Range]*iterInfo
+	specLoop         *loopInfo // the loop whose contract is being evaluated (for iterated())
+	axiomDone        map[string]bool
 }
 
 type refusal struct{ msg string }
